@@ -18,9 +18,18 @@ RULE = ('cases = (table, operation, arguments), each executed on the three back-
         'width/len, the nine __getitem__ forms (index, slice, list and their pairs), all/any/sum with axis '
         'None/0/1 and optional row/column selections, all_i/any_i, T, & | ~, ==, to_list/to_tuple, '
         'init_bintable conversion, and the FormalContext wrappers; non-trivial = table not constant and at '
-        'least one selection is a proper non-empty list that is not a prefix 0..k-1; a history stream builds '
+        'least one selection is a proper non-empty list that is not a prefix 0..k-1; selections that repeat an '
+        'index are included wherever the three back-ends of the unchanged tree agree (established empirically: '
+        'all/any with every axis, all_i/any_i, every __getitem__ / FormalContext.__getitem__ form, sum with '
+        'repeated rows, sum per column with repeated columns) and excluded only for sum with axis None/1 over '
+        'repeated columns (the bitarray back-end counts through a mask); a history stream builds '
         'the table / context in an earlier state, queries it, changes it through the public setters (data, '
-        'object_names, attribute_names) and judges the next answer against the stateless model of the new state')
+        'object_names, attribute_names — each called or not, in either order) and judges the next answer against '
+        'the stateless model of the new state; the discarded queries include the asked operation itself and the '
+        'read-only observers repr/str/print_data(limits)/hash/len/to_tuple/to_pandas/write_cxt/json/csv/'
+        'hash_fixed and to_list()/to_numeric() whose result is overwritten in place (numpy and bitarray only: '
+        'BinTableLists.to_list() returns the stored rows themselves on the unchanged tree); that stream also '
+        'uses wide (11-14 attributes) and tall (11-14, 21-23 objects) tables, where printing abbreviates')
 EXHAUSTIVE = {'thorough': 'every table of shape <= 2x2, 2x3, 3x2 with every operation and every duplicate-free '
                           'row/column selection (None, [], all ordered subsets, all slices with start/stop in '
                           'range and step in {1,2,-1,-2}); every 3x3 table with every operation (except all_i/any_i and FormalContext.__getitem__) and the '
@@ -173,13 +182,61 @@ def raw_data(kind, t):
     return [list(r) for r in t]
 
 
+OBSERVERS_TABLE = ['hash', 'len', 'repr', 'str', 'to_tuple', 'to_list_mutate']
+OBSERVERS_CTX = ['hash', 'len', 'repr', 'str', 'print_data', 'to_pandas', 'write_cxt', 'write_json', 'write_csv',
+                 'to_numeric_mutate', 'hash_fixed']
+
+
+def _scribble(rows):
+    """Overwrite a returned list of rows in place (aliasing probe)."""
+    for r in rows:
+        if isinstance(r, list):
+            for k in range(len(r)):
+                r[k] = not r[k]
+            r.append(True)
+    if isinstance(rows, list):
+        rows.append([True])
+
+
+def _observe(cls, obj, w):
+    """Read-only calls: they must not change what the object answers afterwards."""
+    op = w['op']
+    if op == 'hash':
+        hash(obj)
+    elif op == 'len':
+        len(obj)
+    elif op == 'repr':
+        repr(obj)
+    elif op == 'str':
+        str(obj)
+    elif op == 'to_tuple':
+        obj.to_tuple()
+    elif op == 'to_list_mutate':
+        r = obj.to_list()
+        # BinTableLists.to_list() hands out the table's own rows (documented behaviour of the unchanged
+        # tree); numpy and bitarray build fresh lists, which the caller may overwrite freely
+        if cls != 'BinTableLists':
+            _scribble(r)
+    elif op == 'to_numeric_mutate':
+        r, _ = obj.to_numeric()
+        if cls != 'BinTableLists':
+            _scribble(r)
+    elif op == 'print_data':
+        obj.print_data(max_n_objects=w['max_o'], max_n_attributes=w['max_a'])
+    elif op == 'hash_fixed':
+        obj.hash_fixed()
+    elif op in ('to_pandas', 'write_cxt', 'write_json', 'write_csv'):
+        getattr(obj, op)()
+    else:
+        return False
+    return True
+
+
 def _warm(cls, obj, ops):
     """Run operations whose results are discarded (they may fill memoised attributes)."""
     for w in ops:
         try:
-            if w['op'] == 'hash':
-                hash(obj)
-            else:
+            if not _observe(cls, obj, w):
                 apply_op(cls, obj, w)
         except Exception:
             pass
@@ -202,8 +259,11 @@ def run_one(cls, case):
             _warm(cls, K, hist['warm'])
             if hist.get('data1') is not None:
                 K.data.data = raw_data(hist['assign'], t)     # same shape, through the table's setter
-            K.object_names = on
-            K.attribute_names = an
+            for which in hist.get('setters', ['o', 'a']):      # the name setters, independently
+                if which == 'o':
+                    K.object_names = on
+                else:
+                    K.attribute_names = an
         else:
             K = FormalContext(data=[list(r) for r in t], object_names=on, attribute_names=an, backend=cls)
         return apply_op(cls, K, case)
@@ -457,11 +517,12 @@ def stats(case):
         d['conv'] = '%d->%s' % (case['via'], case['target'])
     hist = case.get('history')
     if hist:
-        d['history'] = ('rename' + ('+data' if hist.get('data1') else '')) if 'onames1' in hist else (
+        d['history'] = ('names:' + ''.join(hist.get('setters', ['o', 'a'])) + ('+data' if hist.get('data1') else '')) if 'onames1' in hist else (
             'data:same-shape' if (len(hist['data1']), len(hist['data1'][0])) == (len(t), len(t[0]))
             else 'data:other-shape')
         d['history_assign'] = str(hist.get('assign'))
         d['history_warm'] = len(hist['warm'])
+        d['history_observers'] = sum(1 for x in hist['warm'] if x['op'] in OBSERVERS_CTX + OBSERVERS_TABLE)
     else:
         d['history'] = 'none'
     return d
@@ -597,10 +658,19 @@ def exhaustive_cases():
         yield from cases_for_table(t, False, _others(t, k))
 
 
-def random_sel(rng, n):
+def dup_list(rng, n):
+    """An in-range index list that repeats at least one index."""
+    base = [rng.randrange(n) for _ in range(rng.randint(1, n + 1))]
+    base.insert(rng.randint(0, len(base)), rng.choice(base))
+    return base
+
+
+def random_sel(rng, n, dup_ok=True):
     r = rng.random()
     if r < 0.25:
         return None
+    if dup_ok and r < 0.37:
+        return dup_list(rng, n)
     return gen.random_subset(rng, n)
 
 
@@ -618,8 +688,10 @@ def random_index(rng, n, allow_int=True):
     r = rng.random()
     if allow_int and r < 0.3:
         return ['int', rng.randrange(n)]
-    if r < 0.65:
+    if r < 0.58:
         return ['list', gen.random_subset(rng, n)]
+    if r < 0.68:
+        return ['list', dup_list(rng, n)]
     return random_slice(rng, n)
 
 
@@ -682,7 +754,10 @@ def random_op(rng, t, kind, family=None, names=None, op=None):
         axis = rng.choice([0, 1] if op in IDX_OPS else [None, 0, 1])
         if rng.random() < 0.01:
             axis = 2    # rejected by every back-end
-        return _case(t, op, kind, axis=axis, rows=random_sel(rng, h), cols=random_sel(rng, w))
+        # sum over a column selection with repeats is outside the property for axis None / 1 (the bitarray
+        # back-end counts through a mask, i.e. treats the selection as a set)
+        return _case(t, op, kind, axis=axis, rows=random_sel(rng, h),
+                     cols=random_sel(rng, w, dup_ok=not (op == 'sum' and axis != 0)))
     if family == 'get':
         return _case(t, 'getitem', kind, item=random_item(rng, h, w))
     if family == 'conv':
@@ -713,15 +788,31 @@ def history_case(rng, max_dim):
     only then asked the case's operation.  The model is stateless: the answer must be that of the
     final state."""
     t, kind = gen.random_table(rng, max_dim, max_dim)
+    on_ctx = rng.random() < 0.45
+    shape = rng.random()
+    if shape < 0.3:     # wide / tall: printing abbreviates beyond 10 attributes / 20 objects
+        p = rng.choice([0.2, 0.5, 0.8])
+        if rng.random() < 0.6:
+            h, w = rng.randint(1, 4), rng.randint(11, 14)
+        elif rng.random() < 0.7:
+            h, w = rng.randint(11, 14), rng.randint(1, 4)
+        else:
+            h, w = rng.randint(21, 23), rng.randint(1, 3)
+        t, kind = [[rng.random() < p for _ in range(w)] for _ in range(h)], 'wide' if w > h else 'tall'
     h, w = len(t), len(t[0])
-    on_ctx = rng.random() < 0.35
     if on_ctx:
         fam = rng.choice(['ctxget', 'ctxmisc', 'ctxmisc', 'bin'])
         case = random_op(rng, t, kind, family=fam, op='ctx_eq' if fam == 'bin' else None)
         names1 = {'onames': rng.sample(range(60, 120), h), 'anames': rng.sample(range(60, 120), w)}
-        hist = {'onames1': names1['onames'], 'anames1': names1['anames'], 'data1': None, 'assign': None}
+        setters = rng.choice([[], ['o'], ['a'], ['a'], ['o', 'a'], ['a', 'o']])
+        if 'o' not in setters:
+            names1['onames'] = list(case['onames'])
+        if 'a' not in setters:
+            names1['anames'] = list(case['anames'])
+        hist = {'onames1': names1['onames'], 'anames1': names1['anames'], 'data1': None, 'assign': None,
+                'setters': setters}
         d1 = t
-        if rng.random() < 0.5:      # the table behind the context is replaced as well (same shape)
+        if rng.random() < 0.35:      # the table behind the context is replaced as well (same shape)
             p = rng.choice([0.2, 0.5, 0.8])
             d1 = [[rng.random() < p for _ in range(w)] for _ in range(h)]
             hist['data1'] = d1
@@ -731,6 +822,9 @@ def history_case(rng, max_dim):
         for _ in range(rng.randint(0, 2)):
             fam2 = rng.choice(['ctxget', 'ctxmisc', 'bin'])
             warm.append(random_op(rng, d1, 'warm', family=fam2, names=names1, op='ctx_eq' if fam2 == 'bin' else None))
+        for _ in range(rng.randint(0, 3)):
+            ob = rng.choice(OBSERVERS_CTX + ['repr', 'print_data', 'print_data'])
+            warm.append({'op': ob, 'max_o': rng.choice([2, 4, 10, 20]), 'max_a': rng.choice([2, 4, 6, 10])})
     else:
         fam = _pick_family(rng, ('noarg', 'noarg', 'bin', 'red', 'get', 'conv'))
         if rng.random() < 0.25:
@@ -753,8 +847,8 @@ def history_case(rng, max_dim):
         for _ in range(rng.randint(0, 3)):
             f2 = _pick_family(rng, ('noarg', 'bin', 'red', 'get'))
             warm.append(random_op(rng, d1, 'warm', family=f2, op=rng.choice(BIN_OPS) if f2 == 'bin' else None))
-        if rng.random() < 0.3:
-            warm.append({'op': 'hash'})
+        for _ in range(rng.randint(0, 2)):
+            warm.append({'op': rng.choice(OBSERVERS_TABLE)})
     rng.shuffle(warm)
     hist['warm'] = [{k: v for k, v in x.items() if k not in ('table', 'kind')} for x in warm]
     case['history'] = hist
